@@ -98,9 +98,15 @@ func (m *mapIter[K, V]) MoveNext() bool {
 
 func (m *mapIter[K, V]) Current() pair[K, V] {
 	return pair[K, V]{
-		Key: m.iter.Key().Interface().(K),
-		Val: m.iter.Value().Interface().(V),
+		Key: valueOf[K](m.iter.Key()),
+		Val: valueOf[V](m.iter.Value()),
 	}
+}
+
+// valueOf converts without panicking on nil interface keys / values
+func valueOf[T any](v reflect.Value) (t T) {
+	t, _ = v.Interface().(T)
+	return
 }
 
 type chanIter[V any] struct {
